@@ -20,6 +20,7 @@ type c09Shape struct {
 	Empty     bool   // empty-valued (only generated as an exception)
 	Exception bool
 	Important bool
+	MixKw     bool // spelling only: the response-code keyword of a full form in mixed case
 	ImpLast   bool // spelling only: $dnsrewrite...,important instead of $important,dnsrewrite...
 	// Canonical value: exactly one of CNAME / RCode!=NOERROR / (RR, Val).
 	CNAME string
@@ -38,6 +39,9 @@ func (s c09Shape) text() string {
 	}
 	if s.Empty {
 		t += "dnsrewrite"
+	} else if s.MixKw && strings.HasPrefix(s.Value, "NOERROR;") {
+		// (keywords are case-insensitive)
+		t += "dnsrewrite=NoError;" + s.Value[len("NOERROR;"):]
 	} else {
 		t += "dnsrewrite=" + s.Value
 	}
@@ -374,14 +378,23 @@ func c09Judge(c *core.Ctx, via string, seq []c09Shape, got []*rules.NetworkRule,
 // c09Spelling writes, in one evaluation of two, the $important modifier of
 // every rule of the sequence after $dnsrewrite.
 func c09Spelling(c *core.Ctx, seq []c09Shape) []c09Shape {
-	if c.Rng.Intn(2) == 0 {
+	mode := c.Rng.Intn(4)
+	if mode == 0 {
 		return seq
 	}
 	out := append([]c09Shape(nil), seq...)
 	for i := range out {
-		out[i].ImpLast = true
+		out[i].ImpLast = mode&1 != 0
+		// (one rule of a pair only, so that an exception and its rewrite are
+		// spelled differently)
+		out[i].MixKw = mode&2 != 0 && (i%2 == 0 || mode == 3)
 	}
-	c.Event("sequences_with_important_written_last", 1)
+	if mode&1 != 0 {
+		c.Event("sequences_with_important_written_last", 1)
+	}
+	if mode&2 != 0 {
+		c.Event("sequences_with_mixed_case_keywords", 1)
+	}
 
 	return out
 }
